@@ -1746,8 +1746,8 @@ func (p *printer) funcDecl(d *ast.FuncDecl) {
 			}
 		}
 		if thisTypeIdent != nil {
-			p.print(thisTypeIdent.Name)
-			p.print(".")
+			p.expr(thisTypeIdent)
+			p.print(token.PERIOD)
 		} else {
 			p.parameters(d.Recv, funcParam) // method: print receiver
 			p.print(blank)
